@@ -333,6 +333,39 @@ type stepNode struct {
 	shift           time.Duration // total logical time added through the hook
 }
 
+// stepBlockLimit: a step of the node that has not returned after this long is blocked. Steps take
+// micro- to milliseconds; the limit only has to be far above what a loaded machine can add.
+const stepBlockLimit = 90 * time.Second
+
+// guard runs one call into the node in its own goroutine so that a call that never returns (a
+// deadlock in the code under test) ends the case with a report instead of hanging the check. A
+// panic of the call is re-raised in the caller, where every test recovers it into a violation.
+func guard(what string, f func()) {
+	type outcome struct {
+		r     interface{}
+		stack string
+	}
+	done := make(chan outcome, 1)
+	go func() {
+		defer func() {
+			if r := recover(); r != nil {
+				done <- outcome{r, shortStack()}
+				return
+			}
+			done <- outcome{}
+		}()
+		f()
+	}()
+	select {
+	case o := <-done:
+		if o.r != nil {
+			panic(fmt.Sprintf("%v [in %s]\n%s", o.r, what, o.stack))
+		}
+	case <-time.After(stepBlockLimit):
+		panic(fmt.Sprintf("%s did not return within %v: the call is blocked (deadlock)", what, stepBlockLimit))
+	}
+}
+
 func newStepNode(cfg config.Config, store *verifkit.MemStore, peer *fakePeer, fetch *stubFetcher) *stepNode {
 	sn := &stepNode{ctx: quietCtx(), cfg: cfg, store: store, peer: peer, fetch: fetch}
 	sn.h1 = &recHandler{sn: sn}
@@ -398,10 +431,10 @@ func (sn *stepNode) drain() {
 // deliver mirrors one iteration of monitorIncoming: check(), then handle one message.
 func (sn *stepNode) deliver(m wire.Message) {
 	sn.step++
-	_ = sn.node.check(sn.ctx)
+	guard("check", func() { _ = sn.node.check(sn.ctx) })
 	sn.drain()
 	sn.trace("peer -> node: %s", sn.describe(m))
-	_ = sn.node.handleMessage(sn.ctx, m)
+	guard("handleMessage "+m.Command(), func() { _ = sn.node.handleMessage(sn.ctx, m) })
 	sn.drain()
 }
 
@@ -478,7 +511,8 @@ func (sn *stepNode) blockStep() bool {
 	if sn.blockCtx != nil {
 		bctx = sn.blockCtx
 	}
-	err0 := sn.node.ProcessBlock(bctx, block)
+	var err0 error
+	guard("ProcessBlock", func() { err0 = sn.node.ProcessBlock(bctx, block) })
 	sn.trace("blockstep %s -> %v", sn.describe(&wire.MsgBlock{Header: bh}), err0)
 	if err := err0; err != nil {
 		c := errors.Cause(err)
@@ -515,7 +549,9 @@ func (sn *stepNode) txStep() bool {
 	select {
 	case tx := <-sn.node.unconfTxChannel.Channel:
 		sn.progress++
-		if err := sn.node.processUnconfirmedTx(sn.ctx, tx); err != nil {
+		var err error
+		guard("processUnconfirmedTx", func() { err = sn.node.processUnconfirmedTx(sn.ctx, tx) })
+		if err != nil {
 			sn.txThreadDead = err.Error()
 		}
 		sn.drain()
